@@ -23,9 +23,9 @@ RULE = (
     "from UFL/basix. Non-trivial = form with >= 2 integral types, or >= 3 distinct ids, or a tuple id, or a prism facet "
     "integral; distinct by spec hash."
 )
-PROFILE = {"bessel": True, "measures": ["dx", "ds", "dS", "dP"], "ids": "rich", "max_integrals": 4, "depth": 1, "maxdeg": 2, "max_qdeg": 3,
+PROFILE = {"bessel": True, "measures": ["dx", "ds", "dS", "dP", "dr"], "ids": "rich", "max_integrals": 4, "depth": 1, "maxdeg": 2, "max_qdeg": 3,
            "p_scheme": 0.05, "p_vertex": 0.03, "ncoef": (0, 3), "nconst": (0, 3)}
-ITYPES = ("cell", "exterior_facet", "interior_facet", "vertex")
+ITYPES = ("cell", "exterior_facet", "interior_facet", "vertex", "ridge")
 
 
 def nontrivial(spec):
@@ -135,6 +135,8 @@ def evaluate_module(case, wd):
         import ffcx.naming
 
         header, source, onames = kernels.generate_code([fr.form for fr in runners], {"scalar_type": runners[0].scalar_type}, prefix="vf", object_names=names)
+    except kernels.Timeout:
+        raise
     except Exception as e:
         return Outcome("rejected", case_id=h, classes=classes + ["rejected:" + type(e).__name__], what=f"{type(e).__name__}: {e}"[:300])
     try:
